@@ -45,6 +45,27 @@ def check_record(ctx, name, seed, r):
     if len(sf) > 1 and (len(st) < 2 or st[1] != sf[1]):
         ctx.report("%s: transform width %s differs from the fitted width %s" % (name, st[1:], sf[1:]), dict(case, shapes=[sf, st]))
         return
+    singles = r.get("transform_singles")
+    if singles is not None:
+        if Z.is_err(singles):
+            ctx.report("%s: transform of a single item raised %s: %s" % (name, singles["err"], singles["msg"]), dict(case, result=singles))
+            return
+        for i, one in enumerate(singles):
+            row = None
+            if tx["kind"] == "sparse":
+                row = {"kind": "sparse", "shape": [1, tx["shape"][1]], "triples": [[0, j, v] for (ii, j, v) in tx["triples"] if ii == i]}
+            elif tx["kind"] == "dense" and len(tx["shape"]) == 2:
+                w = tx["shape"][1]
+                row = {"kind": "dense", "shape": [1, w], "data": tx["data"][i * w:(i + 1) * w]}
+            elif tx["kind"] == "list":
+                row = {"kind": "list", "items": [tx["items"][i]]}
+            if row is None:
+                continue
+            d = Z.diff(row, one, r["exact"], max(r["rtol"], 1e-6))
+            if d:
+                ctx.report("%s: row %d of transform(X') differs from transform([X'[%d]]): %s" % (name, i, i, d),
+                           dict(case, batch_row=str(row)[:300], single=str(one)[:300]))
+                return
     ts = r.get("transform_stripped")
     if ts is not None:
         d = Z.diff(tx, ts, r["exact"], r["rtol"])
